@@ -239,6 +239,11 @@ def prepare(hyps: List[z3.ExprRef], goal: z3.ExprRef) -> Tuple[List[z3.ExprRef],
 
 NATIVE_MS = 30000  # stage 1 is bounded by the number of instances (deterministic), not by time
 QI_MAX = int(os.environ.get("VERIF_QI_MAX", "8000"))
+# z3's auto-configuration picks, for queries with integer-bound quantifiers, a strategy that does not return on *satisfiable*
+# queries before the timeout (a trivial `ForAll i. stoi(itos(i)) == i` alone spins for the full 30 s); with auto_config off
+# E-matching ends at once with "incomplete quantifiers".  Verdicts of all obligations of the unchanged tree are identical in
+# both modes (compared on 2026-10-04); failing obligations are decided ~10x faster.
+NO_AUTOCONFIG = os.environ.get("VERIF_NO_AUTOCONFIG", "1") == "1"
 
 
 def check(hyps: List[z3.ExprRef], goal: z3.ExprRef, timeout_ms: int = 10000, allow_stage2: bool = True, skip_stage1: bool = False):
@@ -256,6 +261,8 @@ def check(hyps: List[z3.ExprRef], goal: z3.ExprRef, timeout_ms: int = 10000, all
         s.set("timeout", NATIVE_MS)
         s.set("smt.mbqi", False)
         s.set("smt.qi.max_instances", QI_MAX)
+        if NO_AUTOCONFIG:
+            s.set("auto_config", False)
         for h in hyps:
             s.add(h)
         s.add(z3.Not(goal))
@@ -275,6 +282,8 @@ def check(hyps: List[z3.ExprRef], goal: z3.ExprRef, timeout_ms: int = 10000, all
     s.set("timeout", 10000)
     s.set("smt.mbqi", False)
     s.set("smt.qi.max_instances", QI_MAX * 10)
+    if NO_AUTOCONFIG:
+        s.set("auto_config", False)
     for h in hyps:
         s.add(h)
     s.add(z3.Not(goal))
